@@ -277,6 +277,12 @@ def binop(it, op, a, b, node=None):
         if isinstance(a, str) and isinstance(b, SInt):
             return SStr([('opaque', 'repeat', (a, b.t))])
     if isinstance(op, ast.Mod) and isinstance(a, str):
+        concrete = lambda x: isinstance(x, (str, int, float, bool, bytes)) and not hasattr(x, 't')
+        if concrete(b) or (isinstance(b, tuple) and all(concrete(x) for x in b)):
+            try:
+                return a % b
+            except (TypeError, ValueError) as e:
+                raise PyExc('TypeError', str(e), site=(getattr(node, 'lineno', None), 'type'), kind='type')
         raise Unsupported('% formatting')
     if isinstance(op, ast.BitOr) and (isinstance(a, SymSet) or isinstance(b, SymSet)):
         def member(v, x):
